@@ -22,8 +22,13 @@ use std::{
 /// /repo's implementation. (The wrapper exists only because that implementation names
 /// `Response<Bytes>` as its websocket response type while `Res`/`TryRes` are implemented for
 /// `Response<Body>`, so the two generic types cannot be paired in a `Server` directly.)
-pub struct SrvReq(pub http::Request<Bytes>);
+pub struct SrvReq(pub http::Request<Bytes>, pub Option<WsEnds>);
 pub type SrvRes = http::Response<Body>;
+/// one direction of a loopback websocket
+pub type WsRx = Pin<Box<dyn Stream<Item = Result<Bytes, Bytes>> + Send>>;
+pub type WsTx = futures::channel::mpsc::UnboundedSender<Result<Bytes, Bytes>>;
+/// the server's ends of an upgraded connection: frames from the client, frames to the client
+pub type WsEnds = (WsRx, WsTx);
 type Inner = http::Request<Bytes>;
 
 impl<E, I, O> Req<E, I, O> for SrvReq
@@ -80,15 +85,17 @@ where
         ),
         E,
     > {
+        // an upgraded loopback connection (the harness is the platform here) ...
+        if let Some((rx, tx)) = self.1 {
+            let res = http::Response::builder()
+                .status(101)
+                .body(Body::Sync(Bytes::new()))
+                .unwrap();
+            return Ok::<(WsRx, WsTx, SrvRes), E>((rx, tx, res));
+        }
+        // ... otherwise /repo's generic request, which never upgrades
         match <Inner as Req<E, I, O>>::try_into_websocket(self.0).await {
-            Err(e) => Err::<
-                (
-                    stream::Empty<Result<Bytes, Bytes>>,
-                    futures::sink::Drain<Result<Bytes, Bytes>>,
-                    SrvRes,
-                ),
-                E,
-            >(e),
+            Err(e) => Err(e),
             Ok(_) => unreachable!("generic requests never upgrade"),
         }
     }
@@ -104,7 +111,7 @@ where
     type Request = SrvReq;
     type Response = SrvRes;
     fn spawn(future: impl Future<Output = ()> + Send + 'static) -> Result<(), E> {
-        futures::executor::block_on(future);
+        spawn_task(future);
         Ok(())
     }
 }
@@ -123,9 +130,20 @@ fn registry() -> &'static HashMap<(String, Method), Handler> {
 /// What an integration's `handle_server_fn` does: look the function up by (path, method) and
 /// run its handler; 400 if there is none.
 pub async fn serve(req: http::Request<Bytes>) -> SrvRes {
+    serve_ws(req, None).await
+}
+pub async fn serve_ws(req: http::Request<Bytes>, ws: Option<WsEnds>) -> SrvRes {
     let key = (req.uri().path().to_string(), req.method().clone());
     match registry().get(&key) {
-        Some(f) => f.handler(SrvReq(req)).await,
+        // as `get_server_fn_service` + `service.run(req)` of the axum / actix integrations:
+        // the handler boxed as a service, wrapped in the function's middleware layers
+        Some(f) => {
+            let mut service = f.clone().boxed();
+            for layer in f.middleware() {
+                service = layer.layer(service);
+            }
+            service.run(SrvReq(req, ws)).await
+        }
         None => http::Response::builder()
             .status(400)
             .body(Body::Sync(Bytes::from_static(b"no server function at this route")))
@@ -273,11 +291,19 @@ impl<E: FromServerFnError> ClientReq<E> for LoopReq {
 
 impl<E: FromServerFnError> ClientRes<E> for LoopRes {
     async fn try_into_string(self) -> Result<String, E> {
+        if FAULTS.with(|f| f.borrow().read_fails) {
+            return Err(ServerFnErrorErr::Response("connection reset while reading the body".into())
+                .into_app_error());
+        }
         String::from_utf8(self.0.body()).map_err(|e| {
             ServerFnErrorErr::Deserialization(e.to_string()).into_app_error()
         })
     }
     async fn try_into_bytes(self) -> Result<Bytes, E> {
+        if FAULTS.with(|f| f.borrow().read_fails) {
+            return Err(ServerFnErrorErr::Response("connection reset while reading the body".into())
+                .into_app_error());
+        }
         Ok(framed(&self.0.body(), FRAME.with(|f| f.get()).1))
     }
     fn try_into_stream(
@@ -322,6 +348,13 @@ pub struct Faults {
     pub response: Option<Edit>,
     /// overwrite the response status
     pub status: Option<u16>,
+    /// the transport fails: `Client::send` returns an error instead of a response
+    pub send_fails: bool,
+    /// the response arrives but its body cannot be read (`try_into_bytes`/`try_into_string` fail)
+    pub read_fails: bool,
+    /// websocket frames replaced in flight: (direction 0 = to the server / 1 = to the client,
+    /// index of the frame in that direction, the frame delivered instead)
+    pub ws_frames: Vec<(u8, usize, Result<Vec<u8>, Vec<u8>>)>,
 }
 #[derive(Clone, Debug)]
 pub enum Edit {
@@ -421,6 +454,9 @@ where
         if let Some(w) = faults.canned {
             return Ok(LoopRes(w));
         }
+        if faults.send_fails {
+            return Err(ServerFnErrorErr::Request("connection refused".into()).into_app_error());
+        }
         // the transport: flatten a streamed body (chunk boundaries are not preserved by HTTP)
         let mut body: Vec<u8> = match req.body {
             LoopBody::Full(b) => b.to_vec(),
@@ -478,7 +514,7 @@ where
     }
 
     async fn open_websocket(
-        _path: &str,
+        path: &str,
     ) -> Result<
         (
             impl Stream<Item = Result<Bytes, Bytes>> + Send + 'static,
@@ -486,21 +522,111 @@ where
         ),
         E,
     > {
-        Err::<
-            (
-                stream::Empty<Result<Bytes, Bytes>>,
-                futures::sink::Drain<Result<Bytes, Bytes>>,
-            ),
-            E,
-        >(
-            ServerFnErrorErr::Request("no websockets over the loopback transport".into())
-                .into_app_error(),
-        )
+        let faults = FAULTS.with(|f| f.borrow().clone());
+        if faults.send_fails {
+            return Err::<(WsRx, WsTx), E>(
+                ServerFnErrorErr::Request("connection refused".into()).into_app_error(),
+            );
+        }
+        let (c2s_tx, c2s_rx) = futures::channel::mpsc::unbounded::<Result<Bytes, Bytes>>();
+        let (s2c_tx, s2c_rx) = futures::channel::mpsc::unbounded::<Result<Bytes, Bytes>>();
+        let request = match http::Request::builder()
+            .method(Method::GET)
+            .uri(path)
+            .header(http::header::UPGRADE, "websocket")
+            .body(Bytes::new())
+        {
+            Ok(r) => r,
+            Err(e) => return Err(ServerFnErrorErr::Request(e.to_string()).into_app_error()),
+        };
+        let (off_up, off_down) = FRAME.with(|f| f.get());
+        let up = in_flight(Box::pin(c2s_rx), 0, off_up, faults.ws_frames.clone());
+        let down = in_flight(Box::pin(s2c_rx), 1, off_down, faults.ws_frames);
+        // the server side runs concurrently with the client (handshake included)
+        let report = s2c_tx.clone();
+        spawn_task(async move {
+            let res = collect(serve_ws(request, Some((up, s2c_tx))).await).await;
+            WS_HANDSHAKE.with(|h| h.set(res.status));
+            if res.status != 101 {
+                // the upgrade did not happen / the handler failed after it: the loopback
+                // reports the response body as an error frame, then closes
+                let _ = report.unbounded_send(Err(Bytes::from(res.body())));
+            }
+        });
+        Ok((down, c2s_tx))
     }
 
     fn spawn(future: impl Future<Output = ()> + Send + 'static) {
-        futures::executor::block_on(future);
+        spawn_task(future);
     }
+}
+
+/// What the loopback websocket does to frames in flight: every frame is delivered as a
+/// `Bytes::slice` view at offset `off` (as `framed`), frames named in `edits` are replaced.
+fn in_flight(
+    rx: WsRx,
+    dir: u8,
+    off: usize,
+    edits: Vec<(u8, usize, Result<Vec<u8>, Vec<u8>>)>,
+) -> WsRx {
+    Box::pin(rx.enumerate().map(move |(i, frame)| {
+        let frame = match edits.iter().find(|(d, k, _)| *d == dir && *k == i) {
+            Some((_, _, Ok(b))) => Ok(Bytes::from(b.clone())),
+            Some((_, _, Err(b))) => Err(Bytes::from(b.clone())),
+            None => frame,
+        };
+        match frame {
+            Ok(b) => Ok(framed(&b, off)),
+            Err(b) => Err(framed(&b, off)),
+        }
+    }))
+}
+
+// ------------------------------------------------------------------ executor
+thread_local! {
+    /// tasks handed to `Client::spawn` / `Server::spawn` (and the server side of a websocket)
+    static TASKS: RefCell<Vec<Pin<Box<dyn Future<Output = ()> + Send>>>> = RefCell::new(Vec::new());
+    /// status of the last websocket handshake response (0 = none yet)
+    pub static WS_HANDSHAKE: std::cell::Cell<u16> = std::cell::Cell::new(0);
+}
+pub fn spawn_task(f: impl Future<Output = ()> + Send + 'static) {
+    TASKS.with(|t| t.borrow_mut().push(Box::pin(f)));
+}
+/// Runs `main` together with the spawned tasks on this thread, deterministically: in every
+/// round the futures that are still alive are polled once each, in the order the schedule
+/// names for that round (`sched[round % len]` rotates the list; 0 = main first). Returns
+/// `Err` when `main` is still pending after `fuel` rounds (a lost wake-up / deadlock).
+pub fn run_tasks<T>(main: impl Future<Output = T>, sched: &[usize], fuel: usize) -> Result<T, String> {
+    use std::task::{Context, Poll};
+    TASKS.with(|t| t.borrow_mut().clear());
+    WS_HANDSHAKE.with(|h| h.set(0));
+    let waker = futures::task::noop_waker();
+    let mut cx = Context::from_waker(&waker);
+    let mut main = Box::pin(main);
+    let mut tasks: Vec<Pin<Box<dyn Future<Output = ()> + Send>>> = vec![];
+    for round in 0..fuel {
+        tasks.extend(TASKS.with(|t| std::mem::take(&mut *t.borrow_mut())));
+        let n = tasks.len() + 1;
+        let rot = if sched.is_empty() { 0 } else { sched[round % sched.len()] % n };
+        let mut done = vec![];
+        for k in 0..n {
+            let who = (k + rot) % n;
+            if who == 0 {
+                if let Poll::Ready(v) = main.as_mut().poll(&mut cx) {
+                    TASKS.with(|t| t.borrow_mut().clear());
+                    return Ok(v);
+                }
+            } else if tasks[who - 1].as_mut().poll(&mut cx).is_ready() {
+                done.push(who - 1);
+            }
+        }
+        done.sort_unstable();
+        for i in done.into_iter().rev() {
+            drop(tasks.remove(i));
+        }
+    }
+    TASKS.with(|t| t.borrow_mut().clear());
+    Err(format!("stalled: the call did not complete within {fuel} scheduling rounds"))
 }
 
 pub fn with_faults<T>(f: Faults, run: impl FnOnce() -> T) -> T {
